@@ -166,6 +166,12 @@ def check_discretization(case, chk):
                      expected="a profile whose taps share one delay is valid (rms delay spread 0)")
             return
         raise
+    # the caller's arrays are bit-identical after construction, and the profile owns its data: the
+    # caller overwriting its arrays afterwards changes nothing
+    if not (np.array_equal(delays, d0) and np.array_equal(powers, p0)):
+        chk.fail(("discretize", "constructor_arguments_mutated"), case)
+    delays[...] = delays * 3.0 + 7.0 * Ts
+    powers[...] = -1.0
     disc = prof.get_discretize_profile(Ts)
     got_d = np.asarray(disc.tap_delays)
     k = len(qs)
@@ -190,9 +196,9 @@ def check_discretization(case, chk):
         chk.fail(("discretize", "num_taps", cond), case,
                  observed=(disc.num_taps, int(disc.num_taps_with_padding)),
                  expected=(len(keys), keys[-1] + 1))
-    if not (np.array_equal(prof.tap_delays, d0) and np.array_equal(prof.tap_powers_dB, p0)
-            and np.array_equal(delays, d0) and np.array_equal(powers, p0)):
-        chk.fail(("discretize", "source_profile_mutated"), case)
+    if not (np.array_equal(prof.tap_delays, d0) and np.array_equal(prof.tap_powers_dB, p0)):
+        chk.fail(("discretize", "source_profile_changed"), case,
+                 msg="by discretizing it or by the caller overwriting the arrays it was built from")
     # a discretized profile must refuse a second discretization
     try:
         disc.get_discretize_profile(Ts)
@@ -1257,7 +1263,7 @@ def fam_longm(tier):
                     {"op": "freq", "fft": 4, "sel": None, "blocks": 1, "x": ["ramp"]}])
 
 
-P_WIDE = ["custom", [0, 4, 12], [0.0, -60.0, -120.0]]
+P_WIDE = ["custom", [0, 4, 12], [0.0, -70.0, -150.0]]
 P_WIDEC = ["custom", [2, 1, 8], [0.0, -150.0, -100.0]]       # collision of taps 150 dB apart
 
 
